@@ -23,7 +23,7 @@ FLOORS = {"quick": {"next": 20000, "previous": 20000, "first_of": 20000, "last_o
           "thorough": {"next": 200000, "previous": 200000, "first_of": 200000, "last_of": 200000, "nth_of": 500000}}
 REQUIRED_HOOKS = ["DateTime.next", "DateTime.previous", "DateTime.first_of", "DateTime.last_of", "DateTime.nth_of",
                   "Date.next", "Date.previous", "Date.first_of", "Date.last_of", "Date.nth_of"]
-TECHNIQUE = "runtime contracts on the ten weekday-navigation methods against a date-arithmetic oracle (ordinals) plus the start-of-day clauses rendered by the tz-database oracle; weekday operand rotates WeekDay/int/calendar.Day; same-shape leap/common units visited in one process (history workload); shards run under rotating calendar.setfirstweekday()"
+TECHNIQUE = "runtime contracts on the ten weekday-navigation methods against a date-arithmetic oracle (ordinals) plus the start-of-day clauses rendered by the tz-database oracle; weekday operand rotates WeekDay/int/calendar.Day; same-shape leap/common units visited in one process (history workload); instance times of day inside the skipped/repeated span of the target date; shards run under rotating calendar.setfirstweekday()"
 LEVEL_TEXT = ("every observed next/previous/first_of/last_of/nth_of call on DateTime and Date is judged against ordinal date arithmetic; "
               "every month shape x weekday x n in 1..54 x unit, zones including days with a skipped or repeated midnight and values of "
               "both provenances; held on what was observed")
@@ -33,7 +33,7 @@ RULE = ("dates: every month shape (28-31 days x 7 starting weekdays, leap years)
         "zone/transition); non-trivial = n > 1 or the target day has a skipped/repeated midnight or unit != month")
 ASSUMPTIONS = ["trusted base: CPython datetime/calendar and the tz files",
                "a target date that does not exist in the zone (whole day skipped) is outside the statement and skipped",
-               "with keep_time a wall time that is skipped or repeated on the target day may be normalised either way (C02 decides that)"]
+               "with keep_time a wall time that is skipped or repeated on the target day may be normalised either way (C02 decides that), also when the normalised value falls on the next or previous calendar date"]
 
 
 def unit_bounds(y, m, unit):
@@ -69,6 +69,10 @@ def judge_day(M, name, x, ret, want_date, keep_time, sigp):
         k = judge.zkind(x)
         if judge.zkind(ret) != k:
             bad.append("zone")
+        elif keep_time and k[0] == "iana" and _kept_time_skipped(x, ret, want_date, k[1]):
+            # x's time of day does not exist on the target date: there is no value "on that date at that time"; what comes
+            # back is the construction rules' normalisation of that wall time (C02 decides which), possibly past midnight
+            M.count("keep_time_skipped_on_target_normalised")
         elif (ret.year, ret.month, ret.day) != (want_date.year, want_date.month, want_date.day):
             bad.append("date")
         elif keep_time:
@@ -98,6 +102,16 @@ def judge_day(M, name, x, ret, want_date, keep_time, sigp):
             sit += ":strictly-inside-gap"
     M.check(name, not bad, f"C16/{sigp}:{'+'.join(bad)}{sit}", f"{sigp} landed on the wrong day or time", x=_d(x), got=_d(ret),
             want_date=str(want_date), keep_time=keep_time)
+
+
+def _kept_time_skipped(x, ret, want_date, zn):
+    """x's time of day is skipped on want_date and ret is that wall time moved by the length of the gap (either way)"""
+    w = (want_date.toordinal() - ORD0) * DAY_US + wall_us(x) % DAY_US
+    cls, cands, gap = tzdb.Z.get(zn).classify_wall(w)
+    if cls != "gap":
+        return False
+    t, ob, oa = gap
+    return inst(ret) in (w - ob * US, w - oa * US)
 
 
 def _exists(x, d):
@@ -288,6 +302,12 @@ def cases(M):
             for back in ((1, 3, 6, 8, 20) if thorough else (r.choice((1, 2, 3)), r.choice((6, 8, 20)))):
                 yield {"k": "trans", "zn": zn, "ti": i, "target_wall": day_us, "back": back, "tod": r.randrange(DAY_US),
                        "prov": r.choice(("raw", "conv", "fold0", "fold1"))}
+            # the instance's own time of day lies inside the skipped / repeated span (it exists on the instance's day but
+            # not, or twice, on the target day): target = the date the span starts on and the date it ends on
+            for tday in sorted({(lo // DAY_US) * DAY_US, ((hi - 1) // DAY_US) * DAY_US, day_us}):
+                for back in ((1, 2, 5, 7) if thorough else (r.choice((1, 2, 3, 4)), r.choice((5, 6, 7)))):
+                    yield {"k": "trans", "zn": zn, "ti": i, "target_wall": tday, "back": back, "tod": (lo + r.randrange(max(1, hi - lo))) % DAY_US,
+                           "prov": r.choice(("raw", "conv", "fold0", "fold1")), "tod_in_span": 1}
 
 
 def run(M, c):
